@@ -56,8 +56,20 @@ def size(ls):
     return n
 
 
-def header(letters_used):
-    return [f"dim ${HANDLE[l]} {UNIVERSE[l]}" for l in letters_used]
+# the same letters, names, dtypes and lengths with other items: one process sees both (a second
+# scenario, another region set, another time axis)
+UNIVERSE_ALT = {
+    "a": "D:a:aa:i:i1990,i1995",
+    "b": "D:b:bb:s:sCHN,sIND",
+    "c": "D:c:cc:n:sq",
+    "d": "D:d:dd:s:sk,sl,sm",
+    "e": "D:e:ee:i:i3,i9",
+}
+
+
+def header(letters_used, variant=0):
+    u = UNIVERSE_ALT if variant % 2 else UNIVERSE
+    return [f"dim ${HANDLE[l]} {u[l]}" for l in letters_used]
 
 
 def dset_line(h, ls):
@@ -80,7 +92,7 @@ def gen_arith(tier, seed, universe=None, maxlen=3):
         for ys in subs:
             lines.append(f"case {n} arith x={''.join(xs) or '-'} y={''.join(ys) or '-'}")
             n += 1
-            lines += header(letters)
+            lines += header(letters, n)
             lines.append(dset_line(10, xs))
             lines.append(dset_line(11, ys))
             # in one case out of five the operands have very different magnitudes (exact dyadic)
@@ -94,6 +106,11 @@ def gen_arith(tier, seed, universe=None, maxlen=3):
             for op in ("add", "sub", "mul", "div", "min", "max"):
                 lines.append(f"{op} ${h} $20 $21"); h += 1
             lines.append(f"pow ${h} $20 $22"); h += 1
+            # a right operand that is all zeros (a flow not computed yet) follows the same dimension rules
+            lines.append(arr_line(25, 11, ys, [Fraction(0)] * size(ys)))
+            for op in ("add", "sub", "mul", "min", "max"):
+                lines.append(f"{op} ${h} $20 $25"); h += 1
+            lines.append(f"add ${h} $25 $20"); h += 1
             c = fnum(rand_vals(r, 1, nonzero=True)[0])
             for op in ("add", "sub", "mul", "div", "min", "max"):
                 lines.append(f"{op} ${h} $20 n:{c}"); h += 1
